@@ -5,6 +5,7 @@ import re
 
 from cv import flow, rules
 from cv.rules import events_of, order_after_success, none_after
+from props import common
 
 TITLE = "A backup killed at any point leaves a consistent, usable archive"
 TECHNIQUE = 'static analysis: MIR dominance by edge deletion over every ? and await exit (order of storage effects), provenance of block addresses, who-may-write over the call graph'
@@ -333,31 +334,7 @@ def run(ck, w):
         else:
             ck.ok(o, "%d insert(s) behind hash==name" % len(ins), sites=[e.site() for e, _ in tests], instances=len(ins))
 
-    lb = w.body("blockdir::list_blocks")
-    o = ck.ob("C03.5.list", "list_blocks: a listed file counts as present only if its length is known and non-zero")
-    ins = [e for e in lb.events if e.bb in lb.live and re.search(r"HashSet::<T, S, A>::insert$", e.name)]
-    tests = [e for e in lb.events if e.bb in lb.live and re.search(r"Option::<T>::is_none_or$", e.name)]
-    ok_guard = rules.guarded_by_bool(ck, o, lb, tests, False, ins, "len.is_none_or(==0)", "blocks.insert") if ins else \
-        ck.fail(o, lb.name, "no insert", "list_blocks no longer inserts listed blocks")
-    if ok_guard:
-        # the closure must compare with zero
-        oz = ck.ob("C03.5.list0", "the emptiness predicate compares the length with 0")
-        found = False
-        for e in tests:
-            for a in e.args[1:]:
-                for oo in flow.origins(lb, a):
-                    if oo[0] == "agg" and oo[1] in lib.bodies:
-                        cb = lib.bodies[oo[1]]
-                        for bb, j, s in cb.all_assigns():
-                            rv = s["rv"]
-                            if rv["rk"] == "binop" and rv["op"] == "Eq":
-                                for op in rv["ops"]:
-                                    if op.get("k") == "const" and op.get("int") == "0":
-                                        found = True
-        if found:
-            ck.ok(oz)
-        else:
-            ck.fail(oz, lb.name, "zero-length test changed", "is_none_or closure is not `len == 0`")
+    common.list_blocks_present_set(ck, w, "C03.5.list", "C03.5.list0")
 
     op = w.body("blockdir::BlockDir::open")
     o = ck.ob("C03.5.open", "BlockDir::open initialises the present set from list_blocks")
